@@ -11,6 +11,7 @@ import (
 	"fmt"
 	"io"
 	"net/http"
+	"runtime"
 	"sort"
 	"strconv"
 	"strings"
@@ -207,6 +208,23 @@ func (st *Store) get(gvr schema.GroupVersionResource, ns, name string) *unstruct
 		return nil
 	}
 	return u.DeepCopy()
+}
+
+// forRun returns the universe as one run sees it: a copy with Term set for the objects that are
+// terminating in the store right now (nothing un-terminates an object, and the only deletes of a run
+// come after all its applies, so the flag holds for every apply-time lookup of the run).
+func (u Universe) forRun(st *Store) Universe {
+	out := append(Universe(nil), u...)
+	for i, e := range out {
+		out[i].Term = false
+		if e.FInv || e.Meta.Name == "" || e.GVR.Resource == "" {
+			continue
+		}
+		if o := st.get(e.GVR, e.Meta.Namespace, e.Meta.Name); o != nil && o.GetDeletionTimestamp() != nil {
+			out[i].Term = true
+		}
+	}
+	return out
 }
 
 func (st *Store) put(gvr schema.GroupVersionResource, ns string, obj *unstructured.Unstructured) error {
@@ -679,7 +697,8 @@ type Server struct {
 
 	nInvList, nInvGet, nInvWrite int
 	nGet                         map[int]int
-	nSSA                         map[int]int // server-side-apply PATCHes per object
+	nSSA                         map[int]int    // server-side-apply PATCHes per object
+	mutGets                      map[string]int // GETs sent by the apply-time mutator: ok / missing / rejected
 
 	log   []Item
 	addrs []FAddr // every address this run touched, in order of first use
@@ -698,7 +717,7 @@ type Server struct {
 }
 
 func NewServer(st *Store, clock *Clock, env Env) *Server {
-	s := &Server{st: st, univ: st.univ, clock: clock, faults: map[string]int{}, nGet: map[int]int{}, nSSA: map[int]int{}, cancelAt: env.Cancel}
+	s := &Server{st: st, univ: st.univ, clock: clock, faults: map[string]int{}, nGet: map[int]int{}, nSSA: map[int]int{}, mutGets: map[string]int{}, cancelAt: env.Cancel}
 	for _, f := range env.Faults {
 		s.faults[f.Key()] = 1 + f.Err
 	}
@@ -1246,7 +1265,36 @@ func (r *dynRes) Get(_ context.Context, name string, _ metav1.GetOptions, sub ..
 	if len(sub) > 0 {
 		return nil, r.unsupported("get subresource")
 	}
-	return r.s.opGet(r.gvr, r.ns, name)
+	o, err := r.s.opGet(r.gvr, r.ns, name)
+	if calledByMutator() {
+		// statistics only: the address of the request is FGet like every other GET of the object
+		k := "ok"
+		if apierrors.IsNotFound(err) {
+			k = "missing"
+		} else if err != nil {
+			k = "rejected"
+		}
+		r.s.mu.Lock()
+		r.s.mutGets[k]++
+		r.s.mu.Unlock()
+	}
+	return o, err
+}
+
+// calledByMutator: the GET comes from ApplyTimeMutator.getObject (the source of a substitution).
+func calledByMutator() bool {
+	var pcs [24]uintptr
+	n := runtime.Callers(3, pcs[:])
+	fr := runtime.CallersFrames(pcs[:n])
+	for {
+		f, more := fr.Next()
+		if strings.Contains(f.Function, "mutator.(*ApplyTimeMutator)") {
+			return true
+		}
+		if !more {
+			return false
+		}
+	}
 }
 
 func (r *dynRes) List(_ context.Context, o metav1.ListOptions) (*unstructured.UnstructuredList, error) {
